@@ -340,6 +340,12 @@ def run(prog, rep):
     pel = prog.func("property.BaseProperty.export_leaf")
     rep.check(any(unparse(c.func).endswith("parent.export_leaf") for c in calls_in(pel.node)), "LEAF-1",
               "Property.export_leaf delegates to the parent Section", "ok", "Property.export_leaf does not delegate to parent.export_leaf()", pel.where)
+    # ... whenever there is a parent: the delegation depends on the parent alone (a Property in a tree without a Document is exported as well)
+    for e in effect_calls(prog, pel, lambda c: isinstance(c.func, ast.Attribute) and c.func.attr == "export_leaf"):
+        foreign = [t for t, pol in e.guards() if not re.search(r"(\.|^)_?parent( is None)?$", t)]
+        rep.check(not foreign, "LEAF-1", "Property.export_leaf: the delegation depends on the parent only", str([t for t, _ in e.guards()]),
+                  "Property.export_leaf hands over to its Section only under %s: where that is false the Property itself - not a copy - is returned"
+                  % foreign, where(e.func, e.raw), witness="a Property in a Section tree without a Document: editing the export edits the original")
 
     # ---------------------------------------------------------------- ALIAS-3
     rep.rule("ALIAS-3", "the values getter returns a new list whose list elements (n-tuple values) are copied; "
